@@ -636,6 +636,7 @@ impl World for C12World {
         st.add("sweep_events_processed", total_events);
         st.add("library_calls_in_simulation", hist.len() as u64);
         st.add("fault_hash_keys_handed_to_fresh_threads", keys);
+
         st.max("max_calls_in_flight_at_once", g.max_in_flight);
         for (k, v) in sh.counters.lock().unwrap_or_else(|e| e.into_inner()).iter() {
             st.add(k, *v);
